@@ -915,6 +915,7 @@ emit("s2", coroutine.status(inner), tryresume(inner), tryresume(outer))`)
 	select {
 	case why = <-done:
 	case <-hangAfter(20 * time.Second):
+		noteHang()
 		why = "hang"
 	}
 	return
@@ -1020,6 +1021,7 @@ func coCanary() string {
 		}
 		return ""
 	case <-hangAfter(60 * time.Second):
+		noteHang()
 		cmd.Process.Kill()
 		return "child process hung running the witness"
 	}
